@@ -381,8 +381,11 @@ func raceClients() []raceClient {
 			}, func() {}
 		}})
 
-	out = append(out, raceClient{name: "CallConcurrently", methods: []string{"call-mixed", "call-cancel", "call-single", "call-nil"},
+	out = append(out, raceClient{name: "CallConcurrently", methods: []string{"call-mixed", "call-cancel", "call-single", "call-nil", "call-shared-list"},
 		build: func(_ *xorshift) ([]func(int, *xorshift), func()) {
+			// one function list (with nil entries) owned by the client and passed by several goroutines at once:
+			// the library may read it, nothing more
+			shared := []ccall.CallConcurrentlyFunc{nil, func(context.Context) error { return nil }, nil, func(context.Context) error { return nil }, func(context.Context) error { return errRaceTok }}
 			mk := func(x *xorshift, n int) []ccall.CallConcurrentlyFunc {
 				fs := make([]ccall.CallConcurrentlyFunc, n)
 				for i := range fs {
@@ -406,6 +409,7 @@ func raceClients() []raceClient {
 				},
 				func(_ int, x *xorshift) { _ = ccall.CallConcurrently(bg, mk(x, 1)...) },
 				func(int, *xorshift) { _ = ccall.CallConcurrently(bg, nil, nil) },
+				func(int, *xorshift) { _ = ccall.CallConcurrently(bg, shared...) },
 			}, func() {}
 		}})
 
